@@ -33,7 +33,7 @@ func ruleC05(w *World, r *Report) {
 	const P = "C05"
 	r.Explanation = "R05.1 after NewPFCPSession succeeded every exit of the establishment handler either commits the session (store.PutSession) or has passed RemoveSession and the releases of what was acquired; R05.2 at every session-end site (call sites of RemoveSession, derived) every path through the site also removes the session's datapath entries and releases its UE IP and its UP-chosen TEIDs; teardown loops end every stored session on every iteration; " +
 		"R05.3 UP4 sendDelete reaches the release of counter cells, both meter cells of each meter kind, tunnel-peer references, application references and UE-address mappings on its success path; R05.4 the session store hands out rule slices that do not share backing arrays with the stored value (a rejected modification cannot edit the stored rules), and RemoveSession pairs the gauge decrement with the store delete under the local SEID."
-	r.Explanation += " R05.6 the session copy handed to the deletion paths copies each rule list in full (no fixed-length target), and Remove{PDR,FAR,QER} return the removed rule by value, not a pointer into the list they have shifted. R05.7 UpdatePDR carries the allocation marks of the stored PDR over; R05.8 failing exits of addOrUpdateGTPTunnelPeer give a new peer's ID back effectively; R05.9 the UP4 status filter, interpreted per status × method, tolerates NOT_FOUND on DELETE (shared sessions entry); R05.10 the marks of a PDR removed by a modification are examined; R05.11 the UE address is released under the condition it was allocated under; R05.12 an Update FAR that moves the tunnel drops the reference on the previous peer."
+	r.Explanation += " R05.6 the session copy handed to the deletion paths copies each rule list in full (no fixed-length target), and Remove{PDR,FAR,QER} return the removed rule by value, not a pointer into the list they have shifted. R05.7 UpdatePDR carries the allocation marks of the stored PDR over; R05.8 failing exits of addOrUpdateGTPTunnelPeer give a new peer's ID back effectively; R05.9 the UP4 status filter, interpreted per status × method, tolerates NOT_FOUND on DELETE (shared sessions entry); R05.10 the marks of a PDR removed by a modification are examined; R05.11 the UE address is released under the condition it was allocated under; R05.12 an Update FAR that moves the tunnel drops the reference on the previous peer; R05.13 the rejecting exits of the modification handler after a Create PDR was parsed release the address that parse may have allocated."
 	r.NotDecided = "'N attach/detach cycles never exhaust a pool' as arithmetic (a consequence of pairing); releases inside third-party containers"
 	cg := w.CG()
 	remove := w.Fn(P, "pfcpiface.(*PFCPConn).RemoveSession")
@@ -885,6 +885,66 @@ func ruleC05Residual(w *World, r *Report, P string, ipOnly bool) {
 			r.check(okAlloc, "R05.11", w.FuncName(rel), "the UE address is released under the condition it was allocated under", w.Pos(at), "allocation also limited to core-side PDRs", "releaseAllocatedIPs gives the address back only for a marked PDR whose source interface is core, but parseUEAddressIE allocates (and marks) for any PDR that carries CHV4: an address allocated through an access-side PDR is never released")
 		} else {
 			r.ok("R05.11", w.FuncName(rel), "the UE address is released under the condition it was allocated under", w.Pos(rel.Pos()), "release not narrowed by the interface")
+		}
+	}
+	// R05.13: parsePDR allocates the session's UE address while parsing a Create PDR with CHV4. The
+	// establishment handler gives it back when the request is refused (abortSession); the modification
+	// handler has to do the same for an address that was allocated by this very request — a refused
+	// modification stores nothing, so no stored PDR carries the mark and the session-end release never
+	// sees the address.
+	{
+		parse := w.Fn(P, "pfcpiface.(*pdr).parsePDR")
+		n, leaking := 0, 0
+		var firstRet *ssa.Return
+		for _, c := range callsTo(mod, parse) {
+			call := c.(ssa.Instruction)
+			// only Create PDR parses (the loop over smreq.CreatePDR)
+			if !strings.Contains(symOf(c.Common().Args[1]).String(), "CreatePDR") {
+				continue
+			}
+			n++
+			for _, ret := range returnsOf(mod) {
+				if len(ret.Results) < 2 || isNilConst(res(ret, 1)) {
+					continue
+				}
+				if reach(mod, call, func(i ssa.Instruction) bool { return i == ssa.Instruction(ret) }, nil, nil) == nil {
+					continue
+				}
+				miss := reach(mod, call, func(i ssa.Instruction) bool { return i == ssa.Instruction(ret) }, func(i ssa.Instruction) bool {
+					ci, ok := i.(ssa.CallInstruction)
+					if !ok {
+						return false
+					}
+					g := staticCallee(ci)
+					if g == nil {
+						return false
+					}
+					if g.Name() == "DeallocIP" || g.Name() == "releaseAllocatedIPs" || g.Name() == "abortSession" {
+						return true
+					}
+					for _, cc := range withClosures(g) {
+						if g.Parent() == mod && len(callsIn(cc, func(x ssa.CallInstruction) bool {
+							return staticCallee(x) != nil && (staticCallee(x).Name() == "DeallocIP" || staticCallee(x).Name() == "releaseAllocatedIPs")
+						})) > 0 {
+							return true
+						}
+					}
+					return false
+				}, nil)
+				if miss != nil {
+					leaking++
+					if firstRet == nil {
+						firstRet = ret
+					}
+				}
+			}
+		}
+		if n > 0 {
+			pos := w.Pos(mod.Pos())
+			if firstRet != nil {
+				pos = w.Pos(firstRet.Pos())
+			}
+			r.check(leaking == 0, "R05.13", mn, "a refused modification gives back the address its Create PDRs allocated", pos, "release on the rejecting exits", fmt.Sprintf("%d rejecting exit(s) of the modification handler are reachable after a Create PDR was parsed (parsePDR allocates the UE address for CHV4) without releasing it: the refused request stores nothing, no stored PDR carries the mark, and the address stays allocated after the session is deleted", leaking))
 		}
 	}
 	if ipOnly {
